@@ -41,6 +41,14 @@ if os.path.exists(hm):
     out.append('| edit | property | what | result | rule(s) |\n|---|---|---|---|---|')
     for r in json.load(open(hm)):
         out.append('| `%s` | %s | %s | %s | %s |' % (r['id'], r['property'], r.get('what', '').replace('|', '\\|'), r['status'], ', '.join(r.get('rules') or [])))
+rf = V + '/seeded/refactors/replay.json'
+if os.path.exists(rf):
+    out.append('\n### 10.7 Benign refactorings (`tools/replay_refactors.py`: six behaviour-preserving refactorings per set, all checks, quick tier)\n')
+    out.append('| set | files | result |\n|---|---|---|')
+    for r in json.load(open(rf)):
+        d_ = V + '/seeded/refactors/%s/all.diff' % r['set']
+        files = sorted({l[6:].strip() for l in open(d_) if l.startswith('+++ b/')}) if os.path.exists(d_) else []
+        out.append('| `%s` | %s | %s |' % (r['set'], ', '.join(files), r['status'] + (': ' + '; '.join(x[:120] for x in r.get('lines', [])[:3]) if r['status'] != 'silent' else '')))
 txt = '\n'.join(out) + '\n'
 d = open(V + '/DESIGN.md').read()
 b, e = '<!-- BEGIN GENERATED -->', '<!-- END GENERATED -->'
